@@ -31,6 +31,10 @@ def classify(outcome):
     return "hang"
 
 
+EXC_KINDS = (lambda: RuntimeError("boom"), lambda: OSError(28, "No space left on device"), lambda: FileNotFoundError("gone"),
+             lambda: ValueError("bad tile"), lambda: MemoryError())
+
+
 def serial_checks(V):
     """parallel=1: the exception must propagate to the caller (host-language semantics)."""
     from toasty.pyramid import Pyramid
@@ -47,6 +51,7 @@ def serial_checks(V):
             os.environ.pop("JPY_PARENT_PID", None)
         for what in ("walk", "visit_leaves", "transform"):
             for progress in (False, True):                   # with and without the progress bar (stdout is not a tty here)
+              for mk_exc in EXC_KINDS:                       # whatever the kind of error
                 for when in (1, 3):                          # failing at the first / a later item
                     raised = False
                     calls = [0]
@@ -54,7 +59,7 @@ def serial_checks(V):
                     def boom():
                         calls[0] += 1
                         if calls[0] >= when:
-                            raise RuntimeError("boom")
+                            raise mk_exc()
                     try:
                         with contextlib.redirect_stdout(sink), contextlib.redirect_stderr(sink):
                             if what == "walk":
@@ -64,14 +69,14 @@ def serial_checks(V):
                             else:
                                 transform._do_a_transform(None, 1, lambda: None, lambda buf, pos, a, b: boom(),
                                                           parallel=1, cli_progress=progress)
-                    except RuntimeError:
-                        raised = True
+                    except Exception as e:  # noqa
+                        raised = type(e) is type(mk_exc())
                     n += 1
                     if not raised:
                         V.disagreement("serial mode propagates callback errors",
                                        dict(stage=what, parallel=1, cli_progress=progress, fails_at_call=when,
-                                            JPY_PARENT_PID_set=jupyter),
-                                       "RuntimeError reaches the caller", "no exception", True)
+                                            JPY_PARENT_PID_set=jupyter, error=type(mk_exc()).__name__),
+                                       f"{type(mk_exc()).__name__} reaches the caller", "no exception (or another one)", True)
     finally:
         os.environ.pop("JPY_PARENT_PID", None)
         if saved_jpy is not None:
